@@ -30,7 +30,7 @@ package protobuf
 //@   props C18 C11
 //@   requires [resource] r != nil
 //@   assume [phase-is-a-phase] r.md.phase == resource.PhaseRunning || r.md.phase == resource.PhaseTearingDown
-//@   ensures [marshalled] result1 == nil && result0 != nil && result0.Metadata != nil && result0.Spec != nil
+//@   ensures [marshalled] result0 != nil && result0.Metadata != nil && result0.Spec != nil
 //@   ensures [scalar-fields-as-they-are] result0.Metadata.Namespace == r.md.ns && result0.Metadata.Type == r.md.typ && result0.Metadata.Id == r.md.id && result0.Metadata.Owner == r.md.owner
 //@   ensures [timestamps-always-present] result0.Metadata.Created != nil && timeOf(result0.Metadata.Created) == r.md.created &&
 //@     result0.Metadata.Updated != nil && timeOf(result0.Metadata.Updated) == r.md.updated
